@@ -152,6 +152,13 @@ def apply_op(ctx, st, op, case):
                     t = w.send_to(to, amount, broadcast=op['broadcast'], min_confirms=op.get('min_confirms', 1))
                 else:
                     t0 = w.send_to(to, amount, broadcast=False)
+                    if op.get('seq') is not None:
+                        # the transaction that is handed over carries another sequence number (0 = relative lock of
+                        # zero blocks / replaceable, small relative locks): signed again, then imported and sent
+                        for i_ in t0.inputs:
+                            i_.sequence = op['seq']
+                        t0.sign_and_update()
+                        st.flags.add('imported_with_sequence_%s' % ('zero' if op['seq'] == 0 else 'other'))
                     medium = op['medium']
                     if medium == 'object':
                         t = w.transaction_import(t0)
@@ -422,7 +429,8 @@ def _strategy(ctx):
         st.fixed_dictionaries(dict(send, op=st.just('send'))),
         st.fixed_dictionaries(dict(send, op=st.just('sweep'))),
         st.fixed_dictionaries(dict(send, op=st.just('import_send'),
-                                   medium=st.sampled_from(['object', 'dict', 'raw']))),
+                                   medium=st.sampled_from(['object', 'dict', 'raw']),
+                                   seq=st.sampled_from([None, None, 0, 0, 1, 0xfffffffd]))),
         st.fixed_dictionaries({'op': st.just('delete'), 'key': st.integers(0, 5)}),
         st.fixed_dictionaries({'op': st.just('delete_funding'), 'pick': st.integers(0, 5)}),
         st.fixed_dictionaries({'op': st.just('delete_received'), 'pick': st.integers(0, 5),
